@@ -18,3 +18,11 @@ REF_PATH.parent.mkdir(exist_ok=True)
 with gzip.GzipFile(REF_PATH, "wb", mtime=0) as fh:
     fh.write(json.dumps(ref, sort_keys=True, separators=(",", ":")).encode())
 print(f"{len(ref)} functions, {REF_PATH.stat().st_size} bytes")
+
+# every function of the reviewed tree by qualified name: a function that is NOT listed was introduced
+# by a later edit, and sa/inline.py treats it as a helper of its callers whatever its name
+FUNCS_PATH = REF_PATH.parent / "functions.json.gz"
+quals = sorted(q for q, f in repo.funcs.items() if f.outer is None)
+with gzip.GzipFile(FUNCS_PATH, "wb", mtime=0) as fh:
+    fh.write(json.dumps(quals, separators=(",", ":")).encode())
+print(f"{len(quals)} reviewed function names, {FUNCS_PATH.stat().st_size} bytes")
